@@ -32,7 +32,7 @@ def hostport(name):
     return {"host": h, "port": int(p)}
 
 
-SEGS = ["all", "bytes", "tok-inside", "tok-before", (5, 1, 1, 40, 2), "aftercr", "beforelf"]
+SEGS = ["all", "bytes", "tok-inside", "tok-before", (5, 1, 1, 40, 2), "aftercr", "beforelf", (1,), (4,), (6,), (7,)]
 
 
 class World:
